@@ -213,6 +213,15 @@ def run(F, chk):
             else:
                 live = sorted(set(x for ev in evs for x in _live_versions(ev, VE, vers)))
                 ok = p in en["str"] or not live
+                if ok and p in en["str"]:
+                    # like a block reference, a string reference must not be reported under a stronger condition than the one
+                    # it is serialised under (the header string table is rebuilt from what GetStringRefs reports)
+                    sg = [frozenset((x[0], x[1]) for x in ev.guards) for ev in evs]
+                    eg = en_guards.get(("str", p), [])
+                    if eg and not all(any(g <= s_ for g in eg) for s_ in sg):
+                        ok = False
+                        s0 = [s_ for s_ in sg if not any(g <= s_ for g in eg)][0]
+                        stronger = sorted(min((g - s0 for g in eg), key=len))
             chk.instance(R1, ok=ok, sample={"class": D, "path": rp, "kind": kind, "owner": owner},
                          nontrivial=True)
             if not ok:
@@ -232,9 +241,9 @@ def run(F, chk):
                     w = "%s:%s" % (wfn.get("file"), (wloc or "").split(":")[0]) if wfn else "?"
                     if stronger:
                         chk.violation("R5.1", key, w,
-                                      "block reference `%s` of %s is reported by its enumerator only under the additional condition(s) %s, "
+                                      "%s reference `%s` of %s is reported by its enumerator only under the additional condition(s) %s, "
                                       "but it is serialised (%s) also when they do not hold" % (
-                                          rp, owner, ["%s%s" % ("" if pol else "!", k) for k, pol in stronger],
+                                          "string" if kind == "str" else "block", rp, owner, ["%s%s" % ("" if pol else "!", k) for k, pol in stronger],
                                           " > ".join(F.fns[c[0]]["name"] for c in evs[0].chain if c[0] in F.fns)),
                                       {"live_versions": live})
                         reported[key]["classes"].append(D)
